@@ -73,6 +73,21 @@ var fixedModuli = []modulus{
 
 var boundaryLens = []int{1, 2, 511, 512, 513, 1023, 1024, 1025, 2000}
 
+// wordModuli: moduli on both sides of the machine-word boundaries (a fast path for moduli that fit a word, or
+// two, has its overflow corner exactly here: r + x*y mod p does not fit the word when p is just below 2^64).
+// Planned by case index right after the grid, so that they occur for every seed.
+func pow2plus(k uint, d int64) *big.Int {
+	return new(big.Int).Add(new(big.Int).Lsh(big.NewInt(1), k), big.NewInt(d))
+}
+
+var wordModuli = []modulus{
+	{"2e31m1", pow2plus(31, -1), "word"}, {"2e32m5", pow2plus(32, -5), "word"}, {"2e32p15", pow2plus(32, 15), "word"},
+	{"2e63m25", pow2plus(63, -25), "word"}, {"2e63p9", pow2plus(63, 9), "word"}, {"2e64m59", pow2plus(64, -59), "word"},
+	{"2e64m1", pow2plus(64, -1), "word"}, {"2e64p13", pow2plus(64, 13), "word"}, {"2e127m1", pow2plus(127, -1), "word"},
+	{"2e128m159", pow2plus(128, -159), "word"}, {"2e128p51", pow2plus(128, 51), "word"}, {"2e192m237", pow2plus(192, -237), "word"},
+}
+var wordLens = []int{1, 40}
+
 func randBelow(r *hxlib.Rng, n *big.Int) *big.Int {
 	if n.Sign() <= 0 {
 		return new(big.Int)
@@ -633,6 +648,12 @@ func voleMain(cf *hxlib.CommonFlags, o *hxlib.Out) {
 			grid = append(grid, combo{m, md})
 		}
 	}
+	nGrid := len(grid)
+	for _, m := range wordLens {
+		for _, md := range wordModuli {
+			grid = append(grid, combo{m, md})
+		}
+	}
 	// transport boundaries, measured on the tree under test
 	wcap, rcap := transportCaps()
 	wcapRun = wcap
@@ -728,7 +749,9 @@ func voleMain(cf *hxlib.CommonFlags, o *hxlib.Out) {
 		o.Count("vole_sessions")
 		o.Count(fmt.Sprintf("vole_session_calls_%d", len(c.calls)))
 		o.Count("vole_base_" + c.base)
-		if idx < len(grid) {
+		if idx >= nGrid && idx < len(grid) {
+			o.Count(fmt.Sprintf("vole_word_%d_%s", first.m, first.mod.name))
+		} else if idx < nGrid {
 			o.Count(fmt.Sprintf("vole_grid_%d_%s", first.m, first.mod.name))
 		}
 		if long != nil {
